@@ -278,3 +278,27 @@ Example C03_source_example :
   /\ RoleTie.run_has_link succ (@rev name) 2%Z 3 1%N 3%N = Ok (RoleLang.RB false)
   /\ RoleTie.run_has_link succ (@rev name) 10%Z 11 1%N 7%N = Ok (RoleLang.RB false).
 Proof. vm_compute. repeat split; reflexivity. Qed.
+
+(* The same for the CONDITIONAL role manager: ConditionalRoleManager._has_link / has_link are re-translated on every run
+   (translators/condhaslink.py, CRoleLang.v, coq/gen/CondHasLinkGen.v); CRoleTie.v proves that the regenerated search computes
+   has_link_lvl over the CONDITIONED successors (a link is followed iff get_next_roles hands it on) with the conditional
+   manager's own countdown (`level < 0`: max + 1 rounds), and on a CondRM state exactly crm_has_link - the function
+   C03_cond_reach and its corollaries above are about.  The lookup and call of the condition function (get_next_roles) is a
+   parameter of the interpreter, instantiated with crm_pass. *)
+From PyCasbin Require CRoleLang CRoleTie.
+From PyCasbinGen Require CondHasLinkGen.
+
+Theorem C03_source_cond_has_link_rec : forall succ shuffle, (forall l a, In a (shuffle l) <-> In a l) -> forall nexts,
+  forall lvl depth t isset front, S lvl < depth ->
+  CRoleTie.run_crec succ shuffle nexts depth t (CRoleTie.front_val isset front) (BinInt.Z.of_nat lvl)
+  = Ok (CRoleLang.RB (has_link_lvl (CRoleTie.csucc succ nexts) (S lvl) t front)).
+Proof. exact CRoleTie.tie_chas_link_rec. Qed.
+Print Assumptions C03_source_cond_has_link_rec.
+
+Theorem C03_source_cond_has_link : forall (cond : N -> list N -> bool) shuffle, (forall l a, In a (shuffle l) <-> In a l) ->
+  forall s a b doms,
+  CRoleTie.run_chas_link (rm_succ (crm_rm s)) shuffle (CRoleTie.nexts_of cond s (dom_key doms)) (BinInt.Z.of_nat (rm_max (crm_rm s)))
+                         (S (S (rm_max (crm_rm s)))) a b
+  = Ok (CRoleLang.RB (crm_has_link cond s a b doms)).
+Proof. exact CRoleTie.tie_crm_has_link. Qed.
+Print Assumptions C03_source_cond_has_link.
